@@ -730,6 +730,18 @@ class TDMProgram(Program):
 
         return arrival_time
 
+    def __eq__(self, prog):
+        """Equality operator for time-domain programs: equal commands, equal numbers of
+        concurrent modes and equal per-time-bin parameter arrays."""
+        if not super().__eq__(prog):
+            return False
+
+        return (
+            list(self.N) == list(prog.N)
+            and len(self.tdm_params) == len(prog.tdm_params)
+            and all(np.array_equal(a, b) for a, b in zip(self.tdm_params, prog.tdm_params))
+        )
+
     def __str__(self):
         s = (
             f"<TDMProgram: concurrent modes={self.concurr_modes}, "
